@@ -183,9 +183,9 @@ type encLine struct {
 		Cp []int  `json:"cp"`
 		B  bool   `json:"b"`
 	} `json:"tokens"`
-	IndP      []int              `json:"indp"`
-	IndI      []int              `json:"indi"`
-	IndB      []int              `json:"indb"`
+	IndP []int `json:"indp"`
+	IndI []int `json:"indi"`
+	IndB []int `json:"indb"`
 }
 
 // streams: the texts of the enc lines a worker has seen are concatenated (white space between them)
